@@ -171,6 +171,31 @@ fn one_file(ctx: &mut Ctx, index: u64, bytes: &[u8], class: &str, r: &mut Rng, m
         }
         // ---------------- writer faults
         let mut map = reference.1;
+        // every third map is edited through its public fields first, so that the encoder's fall-back branches
+        // (fewer node sample sets than nodes, objects without samples) are written under faults as well
+        if index % 3 == 1 {
+            let mut edited = 0u64;
+            for h in map.hit_objects.iter_mut() {
+                if let rosu_map::section::hit_objects::HitObjectKind::Slider(s) = &mut h.kind {
+                    match r.below(4) {
+                        0 => {
+                            let k = r.below(s.node_samples.len() + 1);
+                            s.node_samples.truncate(k);
+                            edited += 1;
+                        }
+                        1 => {
+                            s.repeat_count += 1 + r.below(2) as i32;
+                            edited += 1;
+                        }
+                        _ => {}
+                    }
+                } else if r.chance(1, 6) {
+                    h.samples.clear();
+                    edited += 1;
+                }
+            }
+            ctx.add("objects_edited_before_encoding", edited);
+        }
         if encode_cost(&mut map) > ENCODE_COST_LIMIT {
             ctx.count("skipped_resource_bound");
             return;
